@@ -10,8 +10,9 @@ man = json.load(open(os.path.join(HERE, "MANIFEST.json")))
 kf = json.load(open(os.path.join(HERE, "known_findings.json")))["findings"]
 out = []
 out.append("### S.1 Checks (generated from MANIFEST.json)\n")
-out.append("| property | specification modules | deciding method |")
-out.append("|---|---|---|")
+tim = json.load(open(os.path.join(HERE, "tools", "quick_timings.json")))["seconds"] if os.path.exists(os.path.join(HERE, "tools", "quick_timings.json")) else {}
+out.append("| property | specification modules | quick (s) | deciding method |")
+out.append("|---|---|---|---|")
 for c in man["checks"]:
     pid = c["property_id"]
     src = open(os.path.join(HERE, "harness", "props", pid + ".py")).read()
@@ -28,7 +29,7 @@ for c in man["checks"]:
         mods = ["OpAlgebra"]
     if pid == "C10":
         mods = ["PowerBins"]
-    out.append("| %s | %s | %s |" % (pid, ", ".join(mods), c["technique"][:260].replace("|", "/")))
+    out.append("| %s | %s | %s | %s |" % (pid, ", ".join(mods), tim.get(pid, ""), c["technique"][:260].replace("|", "/")))
 out.append("\nNot applicable: " + "; ".join("%s (%s)" % (n["property_id"], n["reason"][:140]) for n in man["not_applicable"]) + "\n")
 out.append("### S.2 Genuine defects of the pinned tree (generated from known_findings.json)\n")
 out.append("| id | property | status | commit | what failed |")
